@@ -258,6 +258,10 @@ class ClassInterp:
         if isinstance(e, (ast.Compare, ast.BoolOp)):
             c = self.decide(self.cond(e, env), ast.unparse(e))
             return c
+        if isinstance(e, ast.IfExp):
+            # `a if test else b`: decided like an `if` statement (an undecided test forks the path)
+            c = self.decide(self.cond(e.test, env), ast.unparse(e.test))
+            return self.ev(e.body if c else e.orelse, env)
         raise AnalysisError(f'class domain: unsupported expression {ast.unparse(e)[:60]}')
 
     def binop(self, op, a, b):
